@@ -30,6 +30,9 @@ def rand_prms(rng, ceilos, heights_hint, rich=True):
             p['MIN_SEP_LIMS'] = [rng.choice([1000, 3000]), 10000]
         if rng.random() < 0.3:
             p['LAYERING_PRMS'] = {'min_okta_to_split': rng.choice([1, 2, 4])}
+        if rng.random() < 0.3:          # more slices, more overlaps: bundles of slices re-clustered by the grouping step
+            p['SLICING_PRMS'] = {'distance_threshold': rng.choice([0.03, 0.05, 0.1])}
+            p['GROUPING_PRMS'] = {'height_pad_perc': rng.choice([0, 10, 50, 100, 200])}
     return p
 
 
